@@ -57,7 +57,7 @@ func newDir20Sym() *dirSym {
 		"u1": "cn=" + n[0] + "," + userBase, "u2": "cn=" + n[1] + "," + userBase, "n1": "cn=" + n[2] + "," + userBase, "n2": "cn=" + n[3] + "," + userBase,
 		"g1": "cn=" + n[4] + "," + groupBase, "mz": "cn=" + n[5] + "," + userBase,
 		"pu1": "cn=" + n[0] + ",ou=people", // a proper substring of u1's DN (the directory finds entries by substring)
-		"t1": "cn=tg " + n[4] + ",ou=tokens,dc=example,dc=org", "t2": "cn=tg2-" + n[0] + ",ou=tokens,dc=example,dc=org", "S1": "S-1-5-21-" + fmt.Sprint(1000+r.Intn(9000)), "S9": "S-1-9-9",
+		"t1":  "cn=tg " + n[4] + ",ou=tokens,dc=example,dc=org", "t2": "cn=tg2-" + n[0] + ",ou=tokens,dc=example,dc=org", "S1": "S-1-5-21-" + fmt.Sprint(1000+r.Intn(9000)), "S9": "S-1-9-9",
 		"v1": v[0], "v2": v[1], "v3": v[2], "p": pw[0], "q": pw[1],
 		"a1": "description", "a2": "mail", "a3": "sn", "password": "password", "member": "member"}
 	return &dirSym{m: m}
